@@ -60,6 +60,7 @@ type storedSpec struct {
 	noDate         bool
 	splitCC        bool // the directives on two Cache-Control field lines (several lines are one list)
 	badFirstCCLine bool // a Cache-Control line with an unterminated quoted-string in front of the real one
+	bsFirst        bool // an element ending in a backslash OUTSIDE a quoted-string in front of the directives
 	zeroDate       bool // Date: Mon, 01 Jan 0001 00:00:00 GMT (Go's zero time, a valid HTTP-date of a response two millennia old)
 	delayNs        int64
 	extra          Hdr
@@ -130,6 +131,7 @@ func (g *G) genStored(focus string) storedSpec {
 	}
 	s.noDate = g.chance(0.06)
 	s.badFirstCCLine = g.chance(0.03)
+	s.bsFirst = g.chance(0.03)
 	s.zeroDate = !s.noDate && g.chance(0.03)
 	if g.chance(0.2) {
 		s.delayNs = pick(g, int64(1), sec, 2*sec, 3*sec+1)
@@ -162,6 +164,11 @@ func (s storedSpec) reply(atNs int64, body string) Reply {
 		cc = append(cc, "max-age="+s.maxAge)
 	}
 	cc = append(cc, s.flags...)
+	if s.bsFirst {
+		// a quoted-pair exists only inside a quoted-string (RFC 9110 §5.6.4): outside one a backslash is an
+		// ordinary (invalid) byte and the comma after it still separates list elements
+		cc = append([]string{pick2(s.maxAge, `ext=a\`, `ext\`)}, cc...)
+	}
 	if s.swr != "" {
 		cc = append(cc, "stale-while-revalidate="+s.swr)
 	}
@@ -241,6 +248,9 @@ func (g *G) genReqCC() []string {
 	var cc []string
 	if g.chance(0.55) {
 		return nil
+	}
+	if g.chance(0.05) {
+		cc = append(cc, `ext=a\`) // a backslash outside a quoted-string escapes nothing
 	}
 	if g.chance(0.08) {
 		// an unknown extension whose quoted-string argument ends in a quoted-pair, BEFORE the directives that matter
@@ -393,4 +403,12 @@ func (g *G) ccLines(cc []string) Hdr {
 	}
 	cut := 1 + g.r.Intn(len(cc)-1)
 	return Hdr{{"Cache-Control", ccJoin(cc[:cut])}, {"Cache-Control", ccJoin(cc[cut:])}}
+}
+
+// pick2: a deterministic choice that needs no generator state (the spec is a value type)
+func pick2(key, a, b string) string {
+	if len(key)%2 == 0 {
+		return a
+	}
+	return b
 }
